@@ -141,6 +141,12 @@ pub trait Translator {
             }
 
             let block_bytes = memory.get_bytes(block_address, DEFAULT_TRANSLATION_BLOCK_BYTES);
+            #[cfg(feature = "falcon_verif")]
+            let block_bytes = {
+                let mut block_bytes = block_bytes;
+                block_bytes.truncate(crate::verif::window_cap());
+                block_bytes
+            };
             if block_bytes.is_empty() {
                 let mut control_flow_graph = ControlFlowGraph::new();
                 let block_index = control_flow_graph.new_block()?.index();
